@@ -115,8 +115,10 @@ impl NodeHandle {
             Self(child, self.1).dispose();
         }
 
-        // Clear context values.
-        self.1.nodes.borrow_mut()[self.0].context.clear();
+        // Clear context values. The node may have been disposed by one of its own cleanups.
+        if let Some(node) = self.1.nodes.borrow_mut().get_mut(self.0) {
+            node.context.clear();
+        }
     }
 
     /// Run a closure under this reactive node.
